@@ -195,7 +195,7 @@ def match_zero_depth_exchange(case, clause, detail, finding):
         if wit["st"]["ann"] or wit["st"]["pend"] != "none":
             return False
         prev = case["steps"][pos - 1]
-        if prev["k"] != "hex":
+        if prev["k"] not in ("hex", "hexf"):     # synchronous or asynchronous
             return False
         val = wit["w"]["val"]
         if _ev(prev["e"], val["H"], val["v"]) != 0:
